@@ -81,7 +81,8 @@ def r2_handlers(m):
             pf = m.method(fk, nm)
             if pf is not None:
                 fmt_props[nm] = pf.node
-    me = PE.Obj({"_format": PE.Obj({"_is_free": True, "_is_strict": False, "_f2py_enabled": False}, fmt_props)})
+    formats = [(nm_, PE.Obj({"_format": PE.Obj({"_is_free": fr_, "_is_strict": st_, "_f2py_enabled": False}, fmt_props)}))
+               for nm_, fr_, st_ in (("free-form", True, False), ("fixed-form", False, False), ("strict fixed-form", False, True))]
     ev = PE.Evaluator(PE.module_regexes(m, RF))
     null_cls = m.key("Cpp_Null_Stmt", CPP) if m.has_class("Cpp_Null_Stmt", CPP) else None
     fixc = m.funcs.get((m.modfile[RF], "_is_fix_comment"))
@@ -98,12 +99,15 @@ def r2_handlers(m):
         bad = None
         for s in kind["samples"]:
             # the reader recognises it as a directive line
-            try:
-                res = ev.run_function(hd.node, [me, s])
-                if not (isinstance(res, tuple) and res[1] is True and res[0] == s):
-                    bad = (s, "the reader does not deliver it as a directive item (handle_cpp_directive -> %r)" % (res,))
-            except (PE.Unsupported, PE.PyRaise) as err:
-                r.error("handle_cpp_directive cannot be interpreted (%s)" % err)
+            # (in every source form, and also when the '#' is indented: the first non-blank character decides)
+            for fname, fobj in formats:
+                for s_in in (s, "  " + s.lstrip()):
+                    try:
+                        res = ev.run_function(hd.node, [fobj, s_in])
+                        if not (isinstance(res, tuple) and res[1] is True and res[0] == s_in):
+                            bad = (s_in, "the %s reader does not deliver it as a directive item (handle_cpp_directive -> %r)" % (fname, res,))
+                    except (PE.Unsupported, PE.PyRaise) as err:
+                        r.error("handle_cpp_directive cannot be interpreted (%s)" % err)
             # ... in fixed form as well: a '#' line is not a comment line (it would be dropped, or kept as a Comment)
             if fixc is not None and s[:1] == "#":
                 for strict in (False, True):
@@ -140,7 +144,7 @@ def r2_handlers(m):
         r.ob(bad is None, "%s: %d samples accepted by %s only" % (kind["kind"], len(kind["samples"]), cname))
         if bad:
             r.fail("%s|%s" % (kind["kind"], bad[0]), "the directive %r (%s): %s" % (bad[0], kind["kind"], bad[1]),
-                   m.loc(m.method(key, "match")) if m.method(key, "match") else None)
+                   m.loc(hd) if "reader does not deliver" in bad[1] else (m.loc(m.method(key, "match")) if m.method(key, "match") else None))
     return r
 
 
